@@ -200,6 +200,11 @@ def render(e):
         return f'({render(e[1])})[{render(e[2])}]'
     if k == 'objset':
         return REV['objtype'][int(e[1])]
+    if k == 'ptr':
+        inner = render(e[1])
+        if e[1][0] != 'objset' and not (e[1][0] == 'ptr'):
+            inner = f'({inner})'
+        return f'{inner}.{REV["name"][int(e[2])]}'
     raise ValueError(f'expr {e}')
 
 
@@ -475,6 +480,8 @@ def value_conforms(v, t, schema, M, db):
 
 
 def monitor_toy(text, ir):
+    if '__type__' in text:      # the toy database stores __type__ as a plain type-name string
+        return [], 0
     M, db = toy()
     try:
         q = M.parse(text)
